@@ -122,7 +122,8 @@ def rand_desc(rng, name, rich=True):
         if k < 0.2:
             out = ("-",)
         elif k < 0.6:
-            out = ("1", rng.choice(TYPES))
+            # a single output of TUPLE type `(u32, String)` is, for the macro, the tuple output (u32, String): not a shape of its own
+            out = ("1", rng.choice(TYPES.replace("R", "")))
         else:
             out = ("t", [rng.choice(TYPES) for _ in range(rng.choice([0, 1, 2, 2, 2, 3]))])
         d["methods"].append({"name": fresh("M"), "ins": ins, "out": out, "mut": rng.random() < 0.4, "fall": rng.random() < 0.4,
